@@ -27,7 +27,8 @@ def strategy_(draw):
     ng = rs['n_genes']
     drop = draw(st.lists(st.integers(0, ng - 1), max_size=max(0, ng // 5), unique=True))
     qgenes = [f'g{i}' for i in range(ng) if i not in drop] + ['novel_a', 'novel_b'][:draw(st.integers(0, 2))]
-    qgenes = list(draw(st.permutations(qgenes)))
+    from pbt import gen as _gen
+    qgenes = list(draw(_gen.shuffled(qgenes)))
     return {
         'ref': rs,
         'query_genes': qgenes,
